@@ -4,6 +4,7 @@
    the differential `alias` stream that mutates every nested path of every handed-out object. *)
 From Coq Require Import List ZArith.
 From SDC Require Import Mdib.Model Mdib.Proofs.
+From SDC Require Alias.Model Alias.Proofs Alias.Isolation_Proofs.
 Import ListNotations.
 Open Scope Z_scope.
 
@@ -39,6 +40,57 @@ Proof.
            end).
 Qed.
 Print Assumptions C03_committed_or_untouched.
+
+(* ---- isolation of handed-out objects (object-graph model Alias/, configuration [fixed] = the code with the
+   mk_copy / parse-default repairs; [OCopy r] is what every transaction getter, entity getter and report
+   builder does before it hands an object out) ---------------------------------------------------------- *)
+Module A := Alias.Model.
+
+(* (a) after ANY history of construct / parse / copy / nested write / in-place list operation the MDIB hands
+   out a copy of stored object r; whatever the application then does - nested writes and in-place list
+   operations at any depth of the copy, further copies, new objects, writes to any OTHER stored object -
+   for as long as it likes, the stored object keeps its value at every unfolding depth n *)
+Theorem C03_handed_out_copy_isolated : forall ds ops r app n,
+  A.no_update ops -> A.no_update app -> Forall (fun o => A.target o <> Some r) app ->
+  (r < length (A.insts (A.run A.fixed (A.init ds) ops)))%nat ->
+  A.inst_values n (A.run A.fixed (A.init ds) (ops ++ A.OCopy r :: app)) r =
+  A.inst_values n (A.run A.fixed (A.init ds) ops) r.
+Proof. exact Alias.Isolation_Proofs.handed_out_copy_isolated. Qed.
+Print Assumptions C03_handed_out_copy_isolated.
+
+(* (b) the other direction: the handed-out copy is a snapshot - later commits that rewrite the stored object
+   (or anything else but the copy) never show in it *)
+Theorem C03_handed_out_copy_stable : forall ds ops r later n,
+  A.no_update ops -> A.no_update later ->
+  (r < length (A.insts (A.run A.fixed (A.init ds) ops)))%nat ->
+  Forall (fun o => A.target o <> Some (length (A.insts (A.run A.fixed (A.init ds) ops)))) later ->
+  A.inst_values n (A.run A.fixed (A.init ds) (ops ++ A.OCopy r :: later)) (length (A.insts (A.run A.fixed (A.init ds) ops))) =
+  A.inst_values n (A.run A.fixed (A.init ds) (ops ++ [A.OCopy r])) (length (A.insts (A.run A.fixed (A.init ds) ops))).
+Proof. exact Alias.Isolation_Proofs.handed_out_copy_stable. Qed.
+Print Assumptions C03_handed_out_copy_stable.
+
+(* the statement is FALSE of a getter that hands out a shallow copy (mk_copy before fixes/C12_mk_copy; the
+   class of the seeded change C03_mkcopy_props): one nested write on the copy shows in the stored object *)
+Theorem C03_shallow_copy_refuted : exists ds ops r app,
+  A.no_update ops /\ A.no_update app /\ Forall (fun o => A.target o <> Some r) app /\
+  (r < length (A.insts (A.run A.today (A.init ds) ops)))%nat /\
+  A.inst_values 3%nat (A.run A.today (A.init ds) (ops ++ A.OCopy r :: app)) r <>
+  A.inst_values 3%nat (A.run A.today (A.init ds) ops) r.
+Proof.
+  exists Alias.Proofs.wit_parse_ds, [A.ONew [A.XImm 5; A.XDefault 0]], 0%nat, [A.OWrite 1%nat [1%nat] 0%nat 7].
+  split; [reflexivity|]. split; [reflexivity|]. split; [repeat constructor; discriminate|].
+  split; vm_compute; [auto|discriminate].
+Qed.
+Print Assumptions C03_shallow_copy_refuted.
+
+(* hypotheses are satisfiable and the conclusion is not trivial: the copy really is written *)
+Example C03_isolation_nonvacuous :
+  let ds := Alias.Proofs.wit_parse_ds in
+  let ops := [A.ONew [A.XImm 5; A.XDefault 0]] in
+  let app := [A.OWrite 1%nat [1%nat] 0%nat 7; A.OMut 1%nat [1%nat] (A.MAppend 9)] in
+  A.inst_values 3%nat (A.run A.fixed (A.init ds) (ops ++ A.OCopy 0%nat :: app)) 0%nat = A.inst_values 3%nat (A.run A.fixed (A.init ds) ops) 0%nat /\
+  A.inst_values 3%nat (A.run A.fixed (A.init ds) (ops ++ A.OCopy 0%nat :: app)) 1%nat <> A.inst_values 3%nat (A.run A.fixed (A.init ds) ops) 0%nat.
+Proof. vm_compute. split; [reflexivity|discriminate]. Qed.
 
 Example C03_nonvacuous :
   let m := mkMdib (fun h => if Z.eqb h 7 then Some (mkDescr None K_METRIC 2 1) else None)
